@@ -770,6 +770,39 @@ func constResults(fn *ssa.Function, idx int, val map[string]int64, depth int) (v
 				continue
 			}
 		}
+		// a variable merged before the return block: the incoming values of the edges actually taken
+		if ph, isPhi := rv.(*ssa.Phi); isPhi && ph.Block() != b {
+			allKnown := true
+			var expand func(x ssa.Value, d int)
+			expand = func(x ssa.Value, d int) {
+				if p2, ok2 := x.(*ssa.Phi); ok2 && d < 4 {
+					pb := p2.Block()
+					for i, e := range p2.Edges {
+						if reach[pb.Preds[i]] && edges[[2]*ssa.BasicBlock{pb.Preds[i], pb}] {
+							expand(e, d+1)
+						}
+					}
+					return
+				}
+				if cv, isCv := x.(*ssa.Convert); isCv {
+					if y, known := evalArith(cv, val, 0); known {
+						vals[y] = true
+						return
+					}
+				}
+				if y, known := evalArith(x, val, 0); known {
+					vals[y] = true
+					return
+				}
+				allKnown = false
+			}
+			expand(ph, 0)
+			if allKnown {
+				continue
+			}
+			ok = false
+			continue
+		}
 		if cv, isCv := returnedValue(r, idx).(*ssa.Convert); isCv {
 			if x, known := evalArith(cv, val, 0); known {
 				vals[x] = true
